@@ -76,6 +76,77 @@ class InteriorRing(
         self._initialise_netcdf(source)
         self._initialise_original_filenames(source)
 
+    def creation_commands(
+        self,
+        representative_data=False,
+        namespace=None,
+        indent=0,
+        string=True,
+        name="c",
+        data_name="data",
+        header=True,
+    ):
+        """Return the commands that would create the interior ring.
+
+        .. versionadded:: (cfdm) NEXTVERSION
+
+        .. seealso:: `{{package}}.Data.creation_commands`,
+                     `{{package}}.Field.creation_commands`
+
+        :Parameters:
+
+            {{representative_data: `bool`, optional}}
+
+            {{namespace: `str`, optional}}
+
+            {{indent: `int`, optional}}
+
+            {{string: `bool`, optional}}
+
+            {{name: `str`, optional}}
+
+            {{data_name: `str`, optional}}
+
+            {{header: `bool`, optional}}
+
+        :Returns:
+
+            {{returns creation_commands}}
+
+        **Examples**
+
+        >>> x = {{package}}.{{class}}()
+        >>> x.set_data([[0, 1], [0, 0]])
+        >>> x.nc_set_dimension('part')
+        >>> print(x.creation_commands(header=False))
+        c = {{package}}.{{class}}()
+        data = {{package}}.Data([[0, 1], [0, 0]], dtype='i8')
+        c.set_data(data)
+        c.nc_set_dimension('part')
+
+        """
+        out = super().creation_commands(
+            representative_data=representative_data,
+            indent=0,
+            namespace=namespace,
+            string=False,
+            name=name,
+            data_name=data_name,
+            header=header,
+        )
+
+        # The name of the netCDF dimension spanned by the parts
+        nc = self.nc_get_dimension(None)
+        if nc is not None:
+            out.append(f"{name}.nc_set_dimension({nc!r})")
+
+        if string:
+            indent = " " * indent
+            out[0] = indent + out[0]
+            out = ("\n" + indent).join(out)
+
+        return out
+
     def dump(
         self,
         display=True,
